@@ -476,6 +476,23 @@ func (e *Engine) installSpecObjs(pkg *types.Package) {
 		e.specObjs[fn] = "eq"
 	}
 	{
+		// is[T any](x any) bool -- dynamic type test; as[T any](x any) T -- the value when is[T](x)
+		for _, nm := range []string{"is", "as"} {
+			tn := types.NewTypeName(token.NoPos, pkg, "T", nil)
+			tp := types.NewTypeParam(tn, types.NewInterfaceType(nil, nil))
+			var res types.Type = boolT
+			if nm == "as" {
+				res = tp
+			}
+			sig := types.NewSignatureType(nil, nil, []*types.TypeParam{tp},
+				types.NewTuple(types.NewVar(token.NoPos, pkg, "x", anyT)),
+				types.NewTuple(types.NewVar(token.NoPos, pkg, "", res)), false)
+			fn := types.NewFunc(token.NoPos, pkg, nm, sig)
+			sc.Insert(fn)
+			e.specObjs[fn] = nm
+		}
+	}
+	{
 		// has[K comparable, V any](m map[K]V, k K) bool  -- map membership
 		kn := types.NewTypeName(token.NoPos, pkg, "K", nil)
 		kp := types.NewTypeParam(kn, types.Universe.Lookup("comparable").Type())
@@ -495,6 +512,12 @@ func (e *Engine) installSpecObjs(pkg *types.Package) {
 	mk("prefixOf", []types.Type{strT, strT}, boolT, false)
 	mk("strLt", []types.Type{strT, strT}, boolT, false)
 	mk("strLower", []types.Type{strT}, strT, false)
+	mk("timeBefore", []types.Type{anyT, anyT}, boolT, false)
+	if tp := e.pkgs["time"]; tp != nil {
+		if tt := tp.Types.Scope().Lookup("Time"); tt != nil {
+			mk("lastNow", nil, tt.Type(), false)
+		}
+	}
 	mk("allocated", []types.Type{anyT}, boolT, false)
 	mk("fresh", []types.Type{anyT}, boolT, false)
 	mk("isType", []types.Type{anyT, strT}, boolT, false)
